@@ -25,7 +25,7 @@ func TestSim(t *testing.T) {
 func run(r *core.R) {
 	r.FaultDecl("conflict", "error_before", "crash_before", "crash_after", "clock_jump", "stall")
 	r.ProbeDecl("affinity_confirmed", "released", "reused_after_cooldown", "block_created", "block_deleted", "borrowed_from_non_affine_block",
-		"autoassign_acked", "autoassign_empty", "assignip_acked", "observed_release_rejected", "handle_tainted_by_fault", "restart", "liveness_checked",
+		"autoassign_acked", "autoassign_empty", "assignip_acked", "assignip_without_handle", "observed_release_rejected", "handle_tainted_by_fault", "restart", "liveness_checked",
 		"concurrent_same_host", "reclaim_of_foreign_empty_block_started", "owner_revives_claim_marked_for_deletion",
 		"confirmed_claim_without_block", "opportunist_claim")
 	w := newWorld(r)
